@@ -412,9 +412,23 @@ Section Validator.
   (* parse_stream: `while not is_end_of_stream(state): parse_sequence(state)`; running out of
      data units inside a sequence is UnexpectedEndOfStream (read at EOF in parse_info).
      `fresh` = we are between sequences. *)
+  (* the data ends inside a sequence: parse_info still checks the previous next_parse_offset
+     against the (end of file) position before its first read raises UnexpectedEndOfStream *)
+  Definition eof_in_sequence (s : vstate) : verdict :=
+    match p_npo (vp s) with
+    | Some n =>
+        if n =? 0 then VReject UnexpectedEndOfStream
+        else match p_prev_len (vp s) with
+             | None => VCrash TypeError_none_offset
+             | Some t => if negb (n =? t) then VReject InconsistentNextParseOffset
+                         else VReject UnexpectedEndOfStream
+             end
+    | None => VReject UnexpectedEndOfStream
+    end.
+
   Fixpoint run_from (fresh : bool) (s : vstate) (us : list dunit) : verdict :=
     match us with
-    | [] => if fresh then Accept else VReject UnexpectedEndOfStream
+    | [] => if fresh then Accept else eof_in_sequence s
     | u :: rest =>
         match step s u rest with
         | Fail v => v
@@ -431,7 +445,7 @@ Section Validator.
   Fixpoint run_obs (fresh : bool) (s : vstate) (us : list dunit) (seq_idx : Z) (pics : list Z)
     : verdict * Z * list Z :=
     match us with
-    | [] => (if fresh then Accept else VReject UnexpectedEndOfStream, seq_idx, pics)
+    | [] => (if fresh then Accept else eof_in_sequence s, seq_idx, pics)
     | u :: rest =>
         match step s u rest with
         | Fail v => (v, seq_idx, pics)
